@@ -140,11 +140,23 @@ def run(ctx):
                     b = b * pe.cov_Obs(1.5, 0.04, "cvR")
                 if mode == "reweighted":
                     a = pe.reweight(obsutil.make_obs(pe, rng, lay, "positive"), [a])[0]
+                via_corr = mode == "same" and rng.random() < 0.4
                 try:
-                    r = pe.correlate(a, b)
+                    if via_corr:
+                        # through Corr.correlate with a Corr partner: timeslice 1 of the result must be correlate(a, b) -- the partner's timeslice of the SAME number --
+                        # and a timeslice that is undefined in one of the two correlators is undefined in the result
+                        a0, a2, b0, b2 = (obsutil.make_obs(pe, rng, lay, "positive") for _ in range(4))
+                        hole_a, hole_b = rng.random() < 0.4, rng.random() < 0.4
+                        cr = pe.Corr([a0, a, None if hole_a else a2]).correlate(pe.Corr([None if hole_b else b0, b, b2]))
+                        r = cr.content[1][0]
+                        if (cr.content[0] is None) != hole_b or (cr.content[2] is None) != hole_a:
+                            ctx.fail("correlate:corr:undefined-pattern", "Corr.correlate: the result is not undefined exactly where one of the two correlators is",
+                                     {"undefined_in_self": [2] if hole_a else [], "undefined_in_partner": [0] if hole_b else [], "result_undefined": [t for t in range(3) if cr.content[t] is None]})
+                    else:
+                        r = pe.correlate(a, b)
                 except Exception:
                     r = None
-                descr = {"op": "correlate", "mode": mode, "layout": {k: len(v) for k, v in lay.items()}}
+                descr = {"op": "correlate" if not via_corr else "Corr.correlate (timeslice 1 of 3)", "mode": mode, "layout": {k: len(v) for k, v in lay.items()}}
                 add("(PCorrelate %s %s)" % (obsutil.obs_term(a), obsutil.obs_term(b)), r, descr, "correlate:%s:%s" % (mode, "accepted" if r is not None else "rejected"),
                     "correlate (%s) %s; the observable of the per-configuration products says otherwise" % (mode, "returns other numbers" if r is not None else "is rejected"),
                     {"descr": descr, "a": obsutil.obs_struct(a), "b": obsutil.obs_struct(b), "impl": None if r is None else obsutil.obs_struct(r)})
